@@ -13,7 +13,8 @@ EX = "exploration"
 CHECKS = {
     "C01": dict(level=MC, design="6/C01",
         technique="TLA+ small-step LoopIR machine (ExoMachine/ExoEquiv) model-checked by TLC on real derivation edges",
-        text="Every accepted derivation edge (corpus procedure x real primitive x cursor x argument grid, plus depth-2 chains) is "
+        text="Every accepted derivation edge (corpus procedure x real primitive x cursor x argument grid, plus depth-2 chains; and "
+             "every derivation step that the repository's own test files perform, recorded by the pytest plugin harness/testrec.py) is "
              "projected to a unit of spec/ExoMachine.tla; TLC runs source and derived procedure on every admissible input of the "
              "bounded input domain and checks equality of all argument buffers and of all configuration fields outside the reported modset.",
         note="Trusted: TLC, the projection harness/export.py (no semantics), value mode F (field Z_32749, Schwartz-Zippel), "
@@ -27,7 +28,8 @@ CHECKS = {
         note="Trusted: gcc 12, the C driver generator harness/cdrv.py, TLC, exact small-integer data (mode Z); host-realisable memories only."),
     "C04": dict(level=MC, design="6/C04",
         technique="TLA+ static predicate ExoProgram!WellScoped + safety traps of the ExoMachine small-step semantics, model-checked by TLC on derived procedures",
-        text="For every accepted derivation edge TLC evaluates WellScoped on the derived procedure (every use in scope of exactly one binder) "
+        text="For every accepted derivation edge (corpus grid, dimension operations x windows, name clashes, and the derivation "
+             "steps recorded from the repository's own tests) TLC evaluates WellScoped on the derived procedure (every use in scope of exactly one binder) "
              "and runs it on every admissible bounded input: no out-of-bounds access, violated callee assertion, non-positive size, shape "
              "mismatch, aliased call arguments, negative trip count or unbound symbol where the source is safe, and no uninitialised "
              "value where the source produced a defined one.",
@@ -56,13 +58,15 @@ CHECKS = {
         technique="TLA+ ExoMachine Safe invariant (trap conditions transcribing the property) model-checked by TLC on front-end-accepted programs",
         text="Exo source texts generated from 14 templates with offsets, extents, guards, assertions and call arguments drawn around "
              "the accept/reject boundary are submitted to the real @proc; every accepted program (and every corpus procedure) is "
-             "run by TLC on all bounded inputs and must never trap: out-of-bounds access or window, violated callee assertion, "
+             "run by TLC on all bounded inputs and must never trap: out-of-bounds access, violated callee assertion, "
              "non-positive size, shape mismatch, aliased call arguments, negative trip count.",
         note="Trusted: TLC, projection, bounded inputs (sizes 1..3 and literal neighbourhoods, index arguments -2..3)."),
     "C05": dict(level=MC, design="6/C05",
         technique="TLA+ ExoMachine/ExoEquiv with call-site traps (Precond, NonPosSize, ShapeMismatch, AliasedArgs) model-checked by TLC on replace edges",
         text="replace/replace_all are tried on every statement and block of 14 kernels against 9 callees/instructions with window, "
-             "size, index, bool and scalar arguments and range/stride assertions; for every success TLC checks that the new call "
+             "size, index, bool and scalar arguments and range/stride assertions, and on a generated matrix (guard operator x operand "
+             "order x offset; right-hand-side operator x operand order x coinciding buffers x assign/reduce; bounds/offset/stride; "
+             "same-named distinct iterators) of 44 kernels x 18 callees; for every success TLC checks that the new call "
              "(executing the callee's Exo body) has exactly the effect of the replaced statements, that callee assertions, sizes, "
              "shapes and aliasing hold at the call site, and that inlining the call again is equivalent.",
         note="Trusted: TLC, projection, bounded inputs."),
@@ -86,7 +90,11 @@ CHECKS = {
              "wrap/move x every node, gap and block cursor. (2) Every explored transition is replayed on real internal_cursors "
              "objects: resulting tree and every forwarded cursor must equal the specification's. (3) Every accepted candidate of "
              "the primitive grid on shape programs forwards all cursors with the real Procedure.forward; results are judged by the "
-             "spec's label oracle (same statement, never another one, never dangling), across chains and for implicit forwarding.",
+             "spec's label oracle (same statement, never another one, never dangling), across chains and for implicit forwarding. "
+             "(4) The same oracle, with identity of carried-over node objects as the label, on every derivation step of the "
+             "repository's own tests. (5) Code -> spec: every elementary edit performed by the primitives of (3) and (4) is recorded "
+             "(tree before/after, edit, images of up to 160 cursors) and validated by TLC against CursorEdit's own step "
+             "(spec/CursorEditTrace.tla: tree agreement, equal forwarding, Sound on the real-sized tree).",
         note="Trusted: TLC; label extraction from unique literals; block cursors judged by the edge criterion; moves into a later "
              "sibling subtree of an ancestor (never produced by public primitives) are replayed but excluded from FwdSound."),
     "C11": dict(level=MC, design="6/C11",
@@ -120,7 +128,9 @@ CHECKS = {
         text="Every claim the real range analysis makes - logged inside index_range_analysis while the real compiler, simplify and "
              "loop/buffer normalisation run on the corpus, returned to users by infer_range for every index expression and "
              "scope, or produced on generated expressions x environments with unknown and half-open ends - is checked by TLC: "
-             "for all valuations admitted by the environment the expression's value lies in base + [lo, hi].",
+             "for all valuations admitted by the environment the expression's value lies in base + [lo, hi]; ranges of procedure "
+             "arguments (arg_range_analysis) are checked against all argument valuations satisfying the procedure's assertions, "
+             "narrowed variants (add_assertion) analysed first.",
         note="Trusted: TLC, the claim export (harness/rangeclaims.py); unknown ends explored in a finite window."),
     "C07": dict(level=MC, design="6/C07",
         technique="TLA+ SessionTrace specification (frame conditions Immutable / CursorsStable as enabling conditions of every step) validating recorded real scheduling sessions; TLC",
@@ -128,7 +138,9 @@ CHECKS = {
              "rewriting), prints, forwards and C generation to randomly chosen live procedures; after every operation every live "
              "Procedure (deep structural fingerprint of all nodes, lists and callees, printed text, C text) and every live cursor "
              "is re-fingerprinted, and TLC accepts the session only if each observation is a step of the state machine in which "
-             "no existing procedure or cursor changed and failing operations define nothing.",
+             "no existing procedure or cursor changed and failing operations define nothing; the repository's own tests are "
+             "validated the same way (one session per test: every Procedure the test creates re-fingerprinted after each creation "
+             "and at teardown; one session per file for procedures created at import time).",
         note="Trusted: TLC, the fingerprint function (harness/purity.py); module-level caches observed only through results."),
     "C15": dict(level=MC, design="6/C15",
         technique="TLA+ Annot specification (Consistent over the annotation assignment space) enumerated by TLC and replayed on the real set_precision/set_memory/set_window + compiler; gcc as external judge of validity",
@@ -136,7 +148,8 @@ CHECKS = {
              "Consistent predicate (one precision per expression, matching precisions and memories across calls, direct access "
              "only to accessible memories, no window where a dense tensor is required); each replayed assignment is applied with "
              "the real operators and compiled: an inconsistent one must be rejected at compile time, an accepted one must yield "
-             "C and header text accepted by gcc -std=c11 with strict -Werror flags; corpus and derived procedures' C is checked too.",
+             "C and header text accepted by gcc -std=c11 with strict -Werror flags; corpus and derived procedures' C is checked too. "
+             "The template has tensor, window-statement-alias and scalar arguments (9 buffers, alias dimension).",
         note="Trusted: TLC, gcc 12; one template call graph; 'valid C' is the C compiler's judgement."),
     "C18": dict(level=EX, design="6/C18",
         technique="TLA+ Determinism specification (2-safety over recorded runs: observations of the same source and schedule step must agree) validating runs of fresh interpreters; TLC",
@@ -144,13 +157,16 @@ CHECKS = {
              "compiles) are executed in fresh interpreters under PYTHONHASHSEED 0/1/2/random, different numbers of previously "
              "created symbols and procedures and different import orders; every observation carries digests of the printed "
              "procedure, C and header, and the specification accepts an observation only if it equals every earlier "
-             "observation with the same key.",
+             "observation with the same key; procedures rebuilt from source under a sweep of the global symbol counter (just "
+             "below powers of ten) must give identical text as well.",
         note="Sampling of process histories (exploration); trusted: TLC, sha1 digests, kernel ASLR."),
     "C14": dict(level=TV, design="6/C14",
         technique="TLA+ trace validation (ExoCTrace mode of ExoMachine): executions of the real intrinsics are checked by TLC against the machine running the instructions' Exo bodies",
         text="Each of the 60 @instr definitions of exo.platforms.x86 is wrapped in a generated procedure (DRAM operands at an offset "
-             "inside larger arrays, register operands moved with the library's load/store instructions), compiled with gcc "
-             "-mavx2 -mfma -mavx512f and sanitizers and executed on lane-distinct operands for every admissible size/mask value; "
+             "inside larger arrays and - one operand at a time, wherever exo's assertion check accepts it - as a stride-3 column of a "
+             "2-D array; register operands moved with the library's load/store instructions), compiled with gcc "
+             "-mavx2 -mfma -mavx512f and sanitizers and executed on lane-distinct operands plus boundary fills (all operands equal, "
+             "zero, neighbouring values, every adjacent pair of operands tied) for every admissible size/mask value; "
              "TLC accepts an execution only if its final state equals that of spec/ExoMachine.tla executing the Exo bodies.",
         note="Trusted: gcc and the host CPU (AVX2 and AVX-512F present), TLC; operands restricted to exactly representable values."),
 }
